@@ -69,14 +69,19 @@ def run(chk):
         chk.violation({"kind": "eval", "expr": evalgen.render(e), "doc": d, "impl": impl[i].decode("utf-8", "replace"),
                        "model": mo.decode("utf-8", "replace") if isinstance(mo, bytes) else repr(mo)}, True,
                       "implementation and reference semantics (Model/Eval.v) disagree on %s" % evalgen.render(e))
-    # eval-all on the same single document must give the same results (binary operators work per input node in
-    # both drivers).  Top-level [..] is evaluated read-only by eval-all and writable by eval, so expressions with a
-    # collect are left out of this comparison.
-    # A union with a variable operand is left out as well: `$x , (empty as $x | $x)` hands the variable's own list
-    # back on both sides under eval-all only, which is the recorded finding union-same-list again.
+    # eval-all on the same single document must give the same results wherever no operator meets a context made of
+    # several copies of the document root: collect, `as` and the binary operators switch to evaluating "all together"
+    # exactly then (every context node flagged EvaluateTogether; the flag sits on document roots and their copies),
+    # which is eval-all's purpose.  Expressions that can hand the root on more than once -- `,`, select, `//`,
+    # variables, reduce, parent -- and top-level collects (read-only under eval-all) are therefore left out, except
+    # the directed shape `(., path) | op` whose context is the root followed by an inner node.
+    ROOTY = {"collect", "union", "as", "var", "reduce", "parent", "select", "alt", "filter"}
+
     def ea_ok(e):
-        ops = evalgen.ops_of(e)
-        return "collect" not in ops and not ("union" in ops and "var" in ops)
+        if e[0] == "pipe" and e[1][0] == "union" and e[1][1] == ("self",) and not (ROOTY & set(evalgen.ops_of(e[1][2]))) \
+                and not (ROOTY & set(evalgen.ops_of(e[2]))):
+            return True
+        return not (ROOTY & set(evalgen.ops_of(e)))
     ea_idx = [i for i, (e, d) in enumerate(cases) if ea_ok(e) and impl[i].startswith(b"OK")]
     ea_req = [{"op": "eval", "expr": evalgen.render(cases[i][0]), "input": json.dumps(cases[i][1]), "in": "json", "out": "json", "indent": 0, "all": True} for i in ea_idx]
     ea_out = [evalgen.canon_impl(r) for r in vlib.yqh_parallel(ea_req)]
